@@ -14,10 +14,10 @@ import (
 // SolveToer fast path (TriDense, LU, QR, LQ and their transposes) and a == b.
 
 type solveCase struct {
-	M, N  int
-	Form  string // general, tri, lu, qr, lq, self
-	Class string // well, illcond, zero
-	LogK  int
+	M, N   int
+	Form   string // general, tri, lu, qr, lq, self
+	Class  string // well, illcond, zero
+	LogK   int
 	TransA bool // pass a.T() of the stored operand (the logical A is unchanged for Form general)
 	opnd
 	Seed uint64
